@@ -20,6 +20,7 @@ import csv
 import datetime
 import io
 import os
+import sys
 import zipfile
 from contextlib import closing
 from xml.etree import ElementTree
@@ -187,6 +188,24 @@ def _as_delimited_keywords(delimited_data_format):
         "strict": True,
     }
     return result
+
+
+def _lift_csv_field_size_limit():
+    """
+    Allow items of any length: by default the :py:mod:`csv` module refuses to read items with more than 131072
+    characters, which :py:class:`DelimitedRowWriter` writes without complaint.
+    """
+    limit = sys.maxsize
+    while True:
+        try:
+            csv.field_size_limit(limit)
+            break
+        except OverflowError:
+            # Platforms where a C long has less bits than ``sys.maxsize``.
+            limit //= 2
+
+
+_lift_csv_field_size_limit()
 
 
 def delimited_rows(delimited_source, data_format):
